@@ -10,10 +10,14 @@ use serde_json::{json, Value};
 pub const SIGMA_C: &[&str] = &[
     "'", "\"", "b", "0", "1", "x", "o", "e", ".", "=", "<", "!", "&", "|", "/", "#", "_", "a", "ü", " ", "\n", "$",
     "@", ":", ";", ",", "(", ")", "[", "]", "{", "}", "-", "~", "\\", "\0",
+    // one representative per character class a scanner predicate could confuse: non-ASCII decimal digit (Nd),
+    // non-ASCII numeric non-digit (No), non-ASCII white space, astral character, tab, CR, upper-case radix/exponent
+    // letters, sign characters, digits outside the binary/octal ranges, a hex letter, an unused ASCII punctuation
+    "\u{663}", "\u{bd}", "\u{a0}", "\u{1d11e}", "\t", "\r", "E", "X", "B", "+", "*", "%", "^", ">", "?", "2", "9", "f",
 ];
 /// the 20-character core used one length deeper
 pub const SIGMA_C_CORE: &[&str] =
-    &["'", "\"", "b", "0", "x", "e", ".", "=", "<", "!", "|", "/", "#", "_", "a", "ü", "\n", "(", "{", "["];
+    &["'", "\"", "b", "0", "x", "e", ".", "=", "<", "!", "|", "/", "#", "_", "a", "\u{663}", "\n", "(", "{", "["];
 
 pub const SIGMA_T: &[&str] = &[
     // keywords
@@ -259,7 +263,10 @@ impl P01 {
         let dn = *offs.last().unwrap();
         subs.push(("D".into(), Sub::Edit { seeds, offs }, dn));
         if std::path::Path::new(&bin_path()).exists() {
-            subs.push(("E".into(), Sub::E2E { n: 2 }, strings_upto(kt, 2)));
+            // process start-up costs ~15 ms here and does not scale with cores, so the quick tier
+            // keeps the end-to-end space to every single token; thorough runs every pair as well
+            let n = tier.pick(1, 2);
+            subs.push(("E".into(), Sub::E2E { n }, strings_upto(kt, n)));
         }
         let total = subs.iter().map(|s| s.2).sum();
         P01 { tier, subs, total }
@@ -373,11 +380,17 @@ impl Property for P01 {
         });
         match r {
             Ok(c) => CaseOut::pass(format!("{}:{}", space, c)),
-            Err(m) => CaseOut::viol(format!("{}:panic", space), format!("front end panicked: {}", one_line(&m, 200))),
+            Err(m) => CaseOut::viol(
+                format!("{}:panic:{}", space, m.chars().filter(|c| !c.is_ascii_digit()).take(40).collect::<String>()),
+                format!("front end panicked: {}", one_line(&m, 200)),
+            ),
         }
     }
+    fn horizon_secs(&self) -> u64 {
+        5
+    }
     fn rule(&self) -> String {
-        "cases = A all character strings over a 36-char alphabet (one char per scanner branch) up to the length bound \
+        "cases = A all character strings over a 54-char alphabet (one char per scanner branch) up to the length bound \
          + one length more over a 20-char core; B all token sequences over a 66-token alphabet up to the bound + one \
          more over a 24-token core; C 13 nesting constructs x depth 1..64 x 4 endings; D every single-token deletion, \
          insertion and substitution (from the 66 tokens) at every position of every seed program (repository examples + \
@@ -393,7 +406,7 @@ impl Property for P01 {
     fn assumptions(&self) -> Vec<String> {
         vec![
             "source texts outside the enumerated alphabets/lengths are not covered; no random tail is sampled".into(),
-            "non-termination is decided up to a 20 s per-case horizon".into(),
+            "non-termination is decided up to a 5 s per-case horizon (cases normally take microseconds)".into(),
             "E (not executed after diagnostics) is only run when the hooked binary has been built".into(),
         ]
     }
